@@ -83,7 +83,7 @@ def gen_unicode_tables():
     if os.path.exists(p):
         return
     r = subprocess.run(["go", "run", os.path.join(VERIF, "lib", "gen_unicode_tables.go")], env=GOENV,
-                       stdout=subprocess.PIPE, stderr=subprocess.PIPE, text=True, timeout=300)
+                       stdout=subprocess.PIPE, stderr=subprocess.PIPE, text=True, errors="replace", timeout=300)
     if r.returncode != 0:
         raise RuntimeError("gen_unicode_tables.go failed: " + r.stderr[-1000:])
     open(p, "w").write(r.stdout)
@@ -96,7 +96,7 @@ def coq_build(timeout=3000):
         gen_coqproject()
         t0 = time.time()
         p = subprocess.run(["make", "-j16", "-k"], cwd=COQ, stdout=subprocess.PIPE, stderr=subprocess.STDOUT,
-                           timeout=timeout, text=True)
+                           timeout=timeout, text=True, errors="replace")
         os.makedirs(BUILD, exist_ok=True)
         open(os.path.join(BUILD, "coq_build.log"), "w").write(p.stdout)
         if p.returncode == 0:
@@ -140,7 +140,7 @@ def _property_obligations(vfile):
     theorems = re.findall(r"^\s*(?:Theorem|Example)\s+([A-Za-z0-9_']+)", src_nc, flags=re.M)
     with Lock("coq"):
         p = subprocess.run(["coqc", "-Q", ".", "Knut", vfile], cwd=COQ, stdout=subprocess.PIPE,
-                           stderr=subprocess.STDOUT, text=True, timeout=1800)
+                           stderr=subprocess.STDOUT, text=True, errors="replace", timeout=1800)
     printed = re.findall(r"^Print Assumptions\s+([A-Za-z0-9_']+)\.", src_nc, flags=re.M)
     blocks = re.split(r"(?m)^(?=Closed under the global context|Axioms:)", p.stdout)
     blocks = [b.strip() for b in blocks if b.strip().startswith(("Closed under", "Axioms:"))]
@@ -164,7 +164,7 @@ def build_kmodel():
         if not kmodel_stale():
             return True, "kmodel up to date"
         p = subprocess.run([os.path.join(COQ, "Extract", "build_kmodel.sh"), BUILD], stdout=subprocess.PIPE,
-                           stderr=subprocess.STDOUT, text=True, timeout=1800)
+                           stderr=subprocess.STDOUT, text=True, errors="replace", timeout=1800)
         return p.returncode == 0, p.stdout[-3000:]
 
 
@@ -219,7 +219,7 @@ def build_harness(wd, tags="verif"):
         json.dump({"Replace": repl}, open(ov, "w"))
         out = os.path.join(wd.path, "verifharness")
         p = subprocess.run(["go", "build"] + COVER_FLAGS + ["-tags", tags, "-overlay", ov, "-o", out, "./cmd/verifharness"],
-                           cwd=REPO, env=GOENV, stdout=subprocess.PIPE, stderr=subprocess.STDOUT, text=True, timeout=900)
+                           cwd=REPO, env=GOENV, stdout=subprocess.PIPE, stderr=subprocess.STDOUT, text=True, errors="replace", timeout=900)
         if p.returncode == 0:
             if HARNESS_DROPPED and not source_changed():
                 # the tree is the one the harness was written against: a file that does not compile is our own error
@@ -242,7 +242,7 @@ def build_knut(wd, tags="verif", race=False):
         cmd.insert(2, "-race")
         env["CGO_ENABLED"] = "1"
     p = subprocess.run(cmd + ["."], cwd=REPO, env=env, stdout=subprocess.PIPE, stderr=subprocess.STDOUT,
-                       text=True, timeout=900)
+                       text=True, errors="replace", timeout=900)
     if p.returncode != 0:
         return False, p.stdout[-4000:]
     return True, out
@@ -255,7 +255,7 @@ def run_harness(harness, gen, seed, n, args=(), env=None, timeout=3600):
     e = dict(os.environ)
     if env:
         e.update(env)
-    p = subprocess.run(cmd, stdout=subprocess.PIPE, stderr=subprocess.PIPE, text=True, timeout=timeout, env=e)
+    p = subprocess.run(cmd, stdout=subprocess.PIPE, stderr=subprocess.PIPE, text=True, errors="replace", timeout=timeout, env=e)
     if p.returncode != 0:
         raise RuntimeError("harness %s failed (%d): %s" % (gen, p.returncode, p.stderr[-2000:]))
     return [l for l in p.stdout.split("\n") if l]
@@ -266,7 +266,7 @@ def run_harness_replay(harness, lines, env=None, timeout=3600):
     if env:
         e.update(env)
     inp = "\n".join("\t".join(l.split("\t")[:3]) for l in lines) + "\n"
-    p = subprocess.run([harness, "replay"], input=inp, stdout=subprocess.PIPE, stderr=subprocess.PIPE, text=True,
+    p = subprocess.run([harness, "replay"], input=inp, stdout=subprocess.PIPE, stderr=subprocess.PIPE, text=True, errors="replace",
                        timeout=timeout, env=e)
     if p.returncode != 0:
         raise RuntimeError("harness replay failed: %s" % p.stderr[-2000:])
@@ -293,7 +293,7 @@ def run_kmodel(lines, timeout=3600, shards=16):
     chunks = [lines[i::shards] for i in range(shards)]
     procs = []
     for ch in chunks:
-        p = subprocess.Popen([KMODEL], stdin=subprocess.PIPE, stdout=subprocess.PIPE, text=True, preexec_fn=_big_stack)
+        p = subprocess.Popen([KMODEL], stdin=subprocess.PIPE, stdout=subprocess.PIPE, text=True, errors="replace", preexec_fn=_big_stack)
         procs.append((p, ch))
     res = {}
     import threading
@@ -459,7 +459,7 @@ def canon_hash(s):
 
 
 if __name__ == "__main__" and len(sys.argv) > 1 and sys.argv[1] == "fingerprint":
-    head = subprocess.run(["git", "-C", REPO, "rev-parse", "--short", "HEAD"], stdout=subprocess.PIPE, text=True).stdout.strip()
+    head = subprocess.run(["git", "-C", REPO, "rev-parse", "--short", "HEAD"], stdout=subprocess.PIPE, text=True, errors="replace").stdout.strip()
     write_json(FINGERPRINT, dict(repo_head=head, sha256=source_fingerprint(),
                                  note="non-test Go sources of /repo against which the quick checks last passed"))
     print(open(FINGERPRINT).read())
